@@ -23,7 +23,7 @@ import time
 sys.path.insert(0, os.path.dirname(os.path.dirname(os.path.abspath(__file__))))
 import z3
 from checks.common import Report
-from checks.typerel import Decider, tables, fmt_type, parse_tree, member, DEPTH
+from checks.typerel import Decider, tables, fmt_type, parse_tree, member, has_cycle, DEPTH
 from sqvm.qv import QV
 from sqvm.typesem import Unsupported
 from sqvm.gen_types import programs as gen_type_programs, rec_left_types, rec_right_types, rec_program
@@ -119,6 +119,62 @@ def check_program(args):
                     out["inconclusive"].append("%s: solver unknown on %s & %s" % (name, fa, fb))
             if len(out["fail"]) >= 6:
                 break
+        # narrowing's type arithmetic (third clause): the real intersect_types / compute_complement
+        # (reached through the cfg(quiver_verif) re-export) must not drop a value that can occur
+        npairs = [(a, b) for (a, b) in pairs if a != b]
+        for kind in ("intersect", "complement"):
+            if not npairs or out["fail"]:
+                break
+            nr = qv.req(op="narrow", h=c["h"], pairs=npairs, kind=kind)
+            if not nr.get("ok"):
+                out["inconclusive"].append("%s: narrow op failed: %s" % (name, str(nr.get("error"))[:100]))
+                break
+            t2 = nr["types"]
+            tu2 = [(t["name"], [(f[0], f[1]) for f in t["fields"]]) for t in nr["tuples"]]
+            D2 = Decider(t2, tu2)
+            for (a, b), res in zip(npairs, nr["results"]):
+                if res is None:
+                    out["goals"] += 1
+                    out["fail"].append({"key": "%s:%s-panics(%s, %s)" % (name, kind, fmt_type(types, tuples, a), fmt_type(types, tuples, b)),
+                                        "why": "%s panics" % kind, "source": src, "a": a, "b": b})
+                    continue
+                if not (D2.supported(a) and D2.supported(b) and D2.supported(res)):
+                    out["narrow_skipped"] = out.get("narrow_skipped", 0) + 1
+                    continue
+                out["goals"] += 1
+                out["narrow_checked"] = out.get("narrow_checked", 0) + 1
+                fa, fb, fr = fmt_type(t2, tu2, a), fmt_type(t2, tu2, b), fmt_type(t2, tu2, res)
+                if kind == "intersect":
+                    r, tree = D2.check(D2.under(a), D2.under(b), z3.Not(D2.over(res)))
+                    inside, outside = [a, b], [res]
+                    what = "intersect_types(%s, %s) = %s drops the value %%s, which is in both" % (fa, fb, fr)
+                else:
+                    r, tree = D2.check(D2.under(a), z3.Not(D2.over(b)), z3.Not(D2.over(res)))
+                    inside, outside = [a], [b, res]
+                    what = "compute_complement(%s, %s) = %s drops the value %%s, which is in the first and not in the second" % (fa, fb, fr)
+                if r == "unsat":
+                    out["ok"] += 1
+                elif r == "sat":
+                    try:
+                        tr = parse_tree(tree)
+                        okc = all(member(t2, tu2, t, tr) for t in inside) and not any(member(t2, tu2, t, tr) for t in outside)
+                    except Exception:
+                        okc = False
+                    if okc:
+                        # role of the failing input: a recursive union whose variants were
+                        # regrouped (the result, or the subtrahend, has the same back-reference
+                        # pointing to a smaller union) vs. anything else
+                        role = "[rebuilt-recursive-union]" if (has_cycle(t2, tu2, a) and (has_cycle(t2, tu2, res) or has_cycle(t2, tu2, b))) else ""
+                        out["fail"].append({"key": "%s:%s-drops-value%s(%s, %s)" % (name, kind, role, fa, fb), "why": what % tree,
+                                            "source": src, "a": a, "b": b, "result": fr, "value": tree})
+                        if len(out["fail"]) >= 6:
+                            break
+                    else:
+                        out["inconclusive"].append("%s: model %s for %s(%s, %s) not confirmed by the plain evaluator" % (name, tree, kind, fa, fb))
+                else:
+                    out["inconclusive"].append("%s: solver unknown on %s(%s, %s)" % (name, kind, fa, fb))
+            out["queries"] += D2.queries
+            out["solver_s"] += D2.solver_s
         # transitivity of the real relation over the matrix
         for a in cand:
             for b in cand:
@@ -238,13 +294,14 @@ def main():
         results = pool.map(check_program, jobs, chunksize=2)
         results += pool.map(check_rec, rec_jobs, chunksize=1)
     progs = 0
-    tot = {"pairs": 0, "compat_true": 0, "overlap_false": 0, "vacuous": 0, "transitivity_triples": 0, "candidates": 0}
+    tot = {"pairs": 0, "compat_true": 0, "overlap_false": 0, "vacuous": 0, "transitivity_triples": 0, "candidates": 0,
+           "narrow_checked": 0, "narrow_skipped": 0}
     for r in results:
         if not r["compiled"]:
             continue
         progs += 1
         for k in tot:
-            tot[k] += r[k]
+            tot[k] += r.get(k, 0)
         rep.queries += r["queries"]
         rep.solver_s += r["solver_s"]
         rep.obligations += r["goals"]
@@ -263,12 +320,13 @@ def main():
     rep.extra["programs"] = progs
     rep.extra["disagreements_checked"] = rep.obligations
     rep.functions = ["quiver_core::types::is_compatible", "quiver_core::types::types_overlap",
+                     "quiver_compiler narrowing::intersect_types, narrowing::compute_complement (through the cfg(quiver_verif) re-export)",
                      "(run by the real code on the real type tables of %d programs; %d ordered type pairs)" % (progs, tot["pairs"])]
     rep.bounds = {"value depth": DEPTH, "tuple arity": 8,
                   "types": "closed first-order types (int, bin, tuples, unions, recursive types, partial types over the program's own tuples); up to %d distinct types per program" % max_types,
                   "programs": "generated type families (sqvm/gen_types.py: %d pairs of 36 type expressions; %d chunks of the recursive family = 169 tuples P[X, Y] over {two recursive lists, four one-step unfoldings, their Cons cells, int} against unions of two such tuples, both directions) + std + examples%s" % (
                       len(gen), len(chunks), " + test-suite and spec sources" if tier == "thorough" else ""),
-                  "not covered": "function, process, resource, ref and generic types; values deeper than 3; narrowing's intersect/complement (private to the compiler crate)"}
+                  "not covered": "function, process, resource, ref and generic types; unguarded cycles; values deeper than 3; narrowing on the recursive family (pairs of the first family and the corpus only)"}
     rep.assumptions = ["the meaning of a type is the set of value trees defined in sqvm/typesem.py (partial types: closed world over the program's tuple table)",
                        "a containment counterexample must be a value of A within depth 3 that is outside B at any depth (under/over approximation at the depth limit)"]
     sys.exit(rep.finish(
